@@ -40,6 +40,8 @@ def check(ctx, tier):
     coh = ctx.cached("coherence", lambda: Coherence(tk))
     report(coh, "C07.i", funcs=[f.qual for f in fs])
     W.report(ctx, tk, "C07.i", fs)
+    from .. import hazards as _hz, scopes as _sc
+    _hz.generic(ctx, tk, "C07.z", _sc.scope(tk, "C07"))
     return {}
 
 
